@@ -6,6 +6,10 @@ compute_mc_paths_giles pointwise (one level), fail-closed like the rest of py2co
                                                           the hand model Model/Alloc.v supplies  S = sum_k sqrt(V_k * C_k))
   np.ceil(X)                  -> Rceil X
   X.astype(int)               -> X                       (an integer-valued real)
+
+criteria_giles (fn["list_param"] = "ml"): the array of level means is a Coq `list R`, indexing stays visible:
+  ml[-k]                      -> nth (length ml - k) ml 0   (numpy raises IndexError when k > len(ml))
+  len(ml) >= k                -> Nat.leb k (length ml)
 """
 import ast
 
@@ -16,7 +20,21 @@ class Ext:
     def __init__(self, ctx, spec, fn):
         self.fn = fn
 
+    def _neg_index(self, e):
+        lp = self.fn.get("list_param")
+        if lp and isinstance(e, ast.Subscript) and isinstance(e.value, ast.Name) and e.value.id == lp \
+                and isinstance(e.slice, ast.UnaryOp) and isinstance(e.slice.op, ast.USub) \
+                and isinstance(e.slice.operand, ast.Constant) and isinstance(e.slice.operand.value, int) and e.slice.operand.value >= 1:
+            return e.slice.operand.value
+        return None
+
     def expr(self, ctx, e):
+        k = self._neg_index(e)
+        if k is not None:
+            lp = self.fn["list_param"]
+            return f"(nth (length {lp} - {k}) {lp} (IZR 0))"
+        if self.fn.get("list_param") and isinstance(e, ast.Subscript) and isinstance(e.value, ast.Name) and e.value.id == self.fn["list_param"]:
+            raise py2coq.Unsupported(f"indexing of {self.fn['list_param']} other than by a negative literal: {py2coq.src(e)}")
         if not self.fn.get("giles_core"):
             return None
         if isinstance(e, ast.Call):
@@ -35,6 +53,11 @@ class Ext:
         return None
 
     def bexpr(self, ctx, e):
+        lp = self.fn.get("list_param")
+        if lp and isinstance(e, ast.Compare) and len(e.ops) == 1 and isinstance(e.ops[0], ast.GtE) \
+                and py2coq.src(e.left) == f"len({lp})" and isinstance(e.comparators[0], ast.Constant) \
+                and isinstance(e.comparators[0].value, int):
+            return f"(Nat.leb {e.comparators[0].value} (length {lp}))"
         return None
 
     def stmt(self, ctx, s, rest, tail, on_raise):
